@@ -170,4 +170,162 @@ example : SmallObject exObj ∧ SmallAddrs2 exObj := by
   unfold SmallAddrs2
   decide
 
+/-! ### the segment half on the flat domain -/
+
+theorem mapM_calcSegAlign_src (secs : List SecBuf) (l l' : List Seg)
+    (h : l.mapM (calcSegAlign secs) = .ok l') :
+    ∀ g' ∈ l', ∃ g ∈ l, g' = { g with align := g'.align } := by
+  induction l generalizing l' with
+  | nil =>
+    simp only [List.mapM_nil, pure, Except.pure, Except.ok.injEq] at h; subst h
+    intro g' hg'; exact absurd hg' List.not_mem_nil
+  | cons g rest ih =>
+    rw [List.mapM_cons] at h
+    simp only [bind, Except.bind] at h
+    cases hg : calcSegAlign secs g with
+    | error e => rw [hg] at h; simp at h
+    | ok g1 =>
+      rw [hg] at h
+      simp only at h
+      cases hr : rest.mapM (calcSegAlign secs) with
+      | error e => rw [hr] at h; simp at h
+      | ok r' =>
+        rw [hr] at h
+        simp only [pure, Except.pure, Except.ok.injEq] at h
+        subst h
+        intro g' hg'
+        rcases List.mem_cons.1 hg' with rfl | hg'
+        · exact ⟨g, List.mem_cons_self .., calcSegAlign_fields secs g _ hg⟩
+        · obtain ⟨g0, hg0, he⟩ := ih r' hr g' hg'
+          exact ⟨g0, List.mem_cons_of_mem _ hg0, he⟩
+
+/-- every saved segment is the result `t.g'` of a turn whose input segment `t.g` is an input segment
+    of the object up to `align` -/
+theorem saved_seg_turn {o : Obj} {os : OStream} {r : SaveRes} {hd : Bytes}
+    (hs : save o os = .ok r) (hok : r.ok = true) (D : Compose.FlatDomain o hd)
+    (res : LayoutRes) (hl : layoutOf (preSave o) hd = .ok (some res)) (g : Seg) (hg : g ∈ r.obj.segs) :
+    ∃ t ∈ res.trace (preSave o), g = t.g' ∧ ∃ g0 ∈ o.segs, t.g = { g0 with align := t.g.align } := by
+  obtain ⟨res', hl', hsegs, -, -⟩ := save_secs_hdr o os r hd hs hok D.hdr
+  rw [hl] at hl'
+  obtain rfl : res = res' := by injection hl' with e; injection e
+  rw [hsegs] at hg
+  have hn' : (preSave o).secs.length < 65536 := by rw [preSave_length]; exact D.input.nsecs
+  have h0' := preSave_h0 o D.input.h0
+  have hnd : (o.segs.map (·.index)).Nodup :=
+    C03.nodup_of_segIdx (RoundTrip.idx_of_B _ _ D.input.segIdx)
+  obtain ⟨t, ht, rfl⟩ := final_segs_turn (preSave o) hd res hl D.nw hn' h0' hnd g hg
+  refine ⟨t, ht, rfl, ?_⟩
+  obtain ⟨e1, -, -⟩ := layoutOf_trace (preSave o) hd res hl D.nw hn' h0'
+  obtain ⟨-, -, hm, ho, -⟩ := layoutOf_parts (preSave o) hd res hl
+  have hto : t.g ∈ res.ordered := by rw [← e1]; exact List.mem_map_of_mem ht
+  have := (orderedSegments_perm _ _ ho).mem_iff.1 hto
+  exact mapM_calcSegAlign_src _ _ _ hm t.g this
+
+/-- **`offset + filesz` of the saved segments, flat domain** — no bounds needed -/
+theorem save_segments_file_noWrap_flat {o : Obj} {os : OStream} {r : SaveRes} {hd : Bytes}
+    (hs : save o os = .ok r) (hok : r.ok = true) (D : Compose.FlatDomain o hd) :
+    ∀ g ∈ r.obj.segs, g.offset.toNat + g.filesz.toNat < 18446744073709551616 := by
+  intro g hg
+  by_cases hfs : g.filesz.toNat = 0
+  · have := g.offset.isLt; omega
+  · obtain ⟨res, hl, -, -, -⟩ := save_secs_hdr o os r hd hs hok D.hdr
+    have hn' : (preSave o).secs.length < 65536 := by rw [preSave_length]; exact D.input.nsecs
+    have h0' := preSave_h0 o D.input.h0
+    have hnd : (o.segs.map (·.index)).Nodup :=
+      C03.nodup_of_segIdx (RoundTrip.idx_of_B _ _ D.input.segIdx)
+    obtain ⟨t, ht, hgt, g0, hg0, he⟩ := saved_seg_turn hs hok D res hl g hg
+    obtain ⟨-, -, e3⟩ := layoutOf_trace (preSave o) hd res hl D.nw hn' h0'
+    obtain ⟨f1, f2, f3, -⟩ := e3 t ht
+    obtain ⟨-, hsecs, -, -, hty, -⟩ := layoutSegment_marks _ _ _ _ _ _ _ _ _ f3 f2 f1
+    have hph : lseg_is_phdr g.stype (BitVec.ofNat 16 g.secs.length) = false := by
+      rw [hgt, hsecs, hty, he]; exact D.noPhdr g0 hg0
+    have := (RoundTrip.flat_seg_bounds hs hok D.hdr D.input.nsecs D.input.h0 D.nw hnd (fun _ => true) D.dom
+      g hg rfl hph hfs res hl).2
+    have := res.lay2.pos.isLt
+    omega
+
+/-- **`vaddr + memsz` of the saved segments, flat domain, from closed-form bounds**: every member is
+    fresh at its step, so `segment_memory` starts at most at the cursor and grows by less than `2^41`
+    per member; `p_memsz < 2^63`, `p_vaddr < 2^62`. -/
+theorem save_segments_mem_noWrap_flat {o : Obj} {os : OStream} {r : SaveRes} {hd : Bytes}
+    (hs : save o os = .ok r) (hok : r.ok = true) (D : Compose.FlatDomain o hd)
+    (hsm : SmallObject o) (ha : SmallAddrs2 o)
+    (hmem : ∀ g ∈ o.segs, g.memsz.toNat < 4611686018427387904) :
+    ∀ g ∈ r.obj.segs, g.vaddr.toNat + g.memsz.toNat < 18446744073709551616 := by
+  obtain ⟨res, hl, -, -, -⟩ := save_secs_hdr o os r hd hs hok D.hdr
+  obtain ⟨hc, hnsec, hnseg, hsz, hseg⟩ := smallObject_preSave o hsm
+  obtain ⟨-, hga⟩ := ha
+  obtain ⟨-, hpos0, hm, ho, -, -, -, -⟩ := layoutOf_parts (preSave o) hd res hl
+  have hp0 : res.pos0.toNat < 8589934592 := by rw [hpos0]; exact Small.save_cursor0_lt _ _ _
+  have hsegs0 := Small.mapM_calcSegAlign_small (preSave o).secs (fun s hs => (hsz s hs).2) (preSave o).segs
+    res.segs0 hm (fun g hg => (hseg g hg).1)
+  have hperm := orderedSegments_perm _ _ ho
+  have hlen0 : res.segs0.length = (preSave o).segs.length := by
+    have := congrArg List.length (mapM_calcSegAlign (preSave o).secs (preSave o).segs res.segs0 hm).1
+    simpa using this
+  have hlen : res.ordered.length < 65536 := by rw [hperm.length_eq, hlen0]; exact hnseg
+  have hinv0 : Small.SmallInv 144115196665790464 res.ordered (lay0Of (preSave o) res.pos0) := by
+    refine ⟨?_, hnsec, ?_, ?_⟩
+    · simp only [lay0Of, List.count_replicate_self]
+      have := Nat.mod_lt (preSave o).secs.length (show 0 < 65536 by decide)
+      omega
+    · intro k s hk; exact hsz s (List.mem_of_getElem? hk)
+    · intro g hg idx hidx s hsx _ has
+      obtain ⟨⟨g0, hg0, he⟩, -⟩ := hsegs0 g (hperm.mem_iff.1 hg)
+      have hsecs : g.secs = g0.secs := by rw [he]
+      have hv : g.vaddr = g0.vaddr := by rw [he]
+      rw [hv]
+      exact (hseg g0 hg0).2 idx (hsecs ▸ hidx) s hsx has
+  have hlo : ∀ g ∈ res.ordered, g ∈ res.ordered ∧ g.align.toNat < 1099511627776 :=
+    fun g hg => ⟨hg, (hsegs0 g (hperm.mem_iff.1 hg)).2⟩
+  have htr := Small.segsTrace_small (preSave o).cls (Hdr.e_phoff (preSave o).cls (preSave o).enc res.hdr0)
+    (Hdr.e_phentsize (preSave o).cls (preSave o).enc res.hdr0) (Hdr.e_phnum (preSave o).cls (preSave o).enc res.hdr0)
+    res.ordered (lay0Of (preSave o) res.pos0) 144115196665790464 res.ordered hc hlo (by omega) hinv0
+  have hn' : (preSave o).secs.length < 65536 := by rw [preSave_length]; exact D.input.nsecs
+  have h0' := preSave_h0 o D.input.h0
+  obtain ⟨e1, -, e3⟩ := layoutOf_trace (preSave o) hd res hl D.nw hn' h0'
+  have hdom := D.dom
+  unfold layoutDomB at hdom
+  rw [hl] at hdom
+  simp only at hdom
+  intro g hg
+  obtain ⟨t, ht, hgt, g0, hg0, he⟩ := saved_seg_turn hs hok D res hl g hg
+  obtain ⟨f1, -⟩ := e3 t ht
+  have hinvt := htr t ht
+  have hturn := segsAllB_trace _ _ _ _ _ _ _ hdom t ht
+  simp only [Bool.not_true, Bool.false_or, Bool.and_eq_true] at hturn
+  obtain ⟨⟨-, hfl⟩, -⟩ := hturn
+  have hto : t.g ∈ res.ordered := by rw [← e1]; exact List.mem_map_of_mem ht
+  have hs1 : t.g.secs = g0.secs := by rw [he]
+  have hv1 : t.g.vaddr = g0.vaddr := by rw [he]
+  have hm1 : t.g.memsz = g0.memsz := by rw [he]
+  rw [hc] at f1 hfl
+  obtain ⟨hv, hmz⟩ := Small.layoutSegment_mem_small _ _ _ t.lay t.g _ res.ordered hto (hlo t.g hto).2
+    (by omega) hinvt (by rw [hs1]; exact (hga g0 hg0).2) hfl (by rw [hm1]; exact hmem g0 hg0) t.lay' t.g' f1
+  rw [hgt, hv, hv1]
+  have := (hga g0 hg0).1
+  omega
+
+/-- **`NoWrap64` of the saved object from closed-form bounds (flat domain).**  The hypothesis
+    `hw : NoWrap64 r.obj.secs r.obj.segs` of the flat composition theorems follows from plain bounds
+    on the input: `SmallObject`, `SmallAddrs2`, and `p_memsz < 2^62` for every input segment. -/
+theorem noWrap64_of_small_flat {o : Obj} {os : OStream} {r : SaveRes} {hd : Bytes}
+    (hs : save o os = .ok r) (hok : r.ok = true) (D : Compose.FlatDomain o hd)
+    (hsm : SmallObject o) (ha : SmallAddrs2 o)
+    (hmem : ∀ g ∈ o.segs, g.memsz.toNat < 4611686018427387904) :
+    Compose.NoWrap64 r.obj.secs r.obj.segs :=
+  ⟨save_sections_noWrap_small o os r hd hs hok D.hdr hsm ha,
+   fun g hg => ⟨save_segments_mem_noWrap_flat hs hok D hsm ha hmem g hg,
+     save_segments_file_noWrap_flat hs hok D g hg⟩⟩
+
+/-- the hypotheses of `noWrap64_of_small_flat` are satisfiable: the ELF64 object with two PT_LOADs, an
+    explicit address, a NOBITS member and a loose section (`Compose.exTwoM`, in `FlatDomain` by
+    `Compose.exTwo_ok`) is small and has small addresses -/
+example : Compose.FlatDomain (Compose.objOf Compose.exTwoM) ((Compose.objOf Compose.exTwoM).hdr.getD []) ∧
+    SmallObject (Compose.objOf Compose.exTwoM) ∧ SmallAddrs2 (Compose.objOf Compose.exTwoM) ∧
+    (∀ g ∈ (Compose.objOf Compose.exTwoM).segs, g.memsz.toNat < 4611686018427387904) := by
+  refine ⟨Compose.exTwo_ok.dom, by decide +kernel, ?_, by decide +kernel⟩
+  unfold SmallAddrs2
+  decide +kernel
+
 end ElfioVerif.C04
